@@ -271,6 +271,11 @@ class Metadata(CbMixin, ProgMixin):
                 })
                 self.length += f["length"]
                 self.filenames.add(path[-1])
+        # never follow a metafile out of the destination directory
+        for entry in self.files:
+            full = str(entry["full"])
+            if os.path.isabs(full) or ".." in Path(full).parts:
+                raise ValueError(f"unsafe path in {self.path}: {full}")
 
     def _map_pieces(self):
         """
